@@ -16,7 +16,10 @@ package main
 // Every mechanism of the catalogue leaves a visible mark when it runs: generic authenticators, remote authorizers
 // and generic contextualizers call a loopback server that records the call; header finalizers append to one
 // upstream header; error handlers redirect to a location naming them. Ids may be shared between kinds. The cel
-// authorizers are the exception: they only have to be created (their `expressions` are compiled at load time).
+// authorizers call nobody; they show WHICH catalogue entry they are through the error they raise: their prototype
+// expression (and some of the expressions rule level overrides give them) is false for the one probe that sends
+// `X-Deny: 1`, and every probe reports the source of its error - what `Error.Source` is for the `if` of an `on_error`
+// step (cellib.WrapError) - next to the error kind.
 //
 // Operation "cel" (facCel): static result type and compile verdict of CEL expressions in heimdall's environment.
 
@@ -146,9 +149,9 @@ func facMechanism(base string, decl map[string]any) (string, map[string]any, err
 			"values":   map[string]any{"v": "base"},
 		}}, nil
 	case "authz/cel":
-		// leaves no mark: every expression the generator lets it keep holds for every probe request
+		// calls nobody; refuses the probe that sends X-Deny: 1, the error names it as its source
 		return "authorizers", map[string]any{"id": id, "type": "cel", "config": map[string]any{
-			"expressions": []any{map[string]any{"expression": "true"}},
+			"expressions": []any{map[string]any{"expression": `Request.Header("X-Deny") != "1"`}},
 		}}, nil
 	case "ctx/generic":
 		return "contextualizers", map[string]any{"id": id, "type": "generic", "config": map[string]any{
@@ -486,12 +489,26 @@ func facParse(raw []byte, loadPath string, k int) (*rulecfg.RuleSet, error) {
 	}
 }
 
-func facProbe(repo rule.Repository, method, path string, authnOK, skip bool) map[string]any {
+// facErrSource is what `Error.Source` is in the `if` of an `on_error` step for this error: the id of the mechanism
+// that raised it (cellib.WrapError is the function behind that variable).
+func facErrSource(err error) string {
+	if err == nil {
+		return ""
+	}
+
+	return cellib.WrapError(err).Source
+}
+
+func facProbe(repo rule.Repository, method, path string, authnOK, skip, deny bool) map[string]any {
 	req := httptest.NewRequest(method, "http://heimdall.test"+path, nil)
 	req.Header.Set("X-Cred", "t")
 
 	if skip {
 		req.Header.Set("X-Skip", "1")
+	}
+
+	if deny {
+		req.Header.Set("X-Deny", "1")
 	}
 
 	ctx := requestcontext.New(req)
@@ -517,6 +534,12 @@ func facProbe(repo rule.Repository, method, path string, authnOK, skip bool) map
 	res["fin"] = append([]string{}, ctx.UpstreamHeaders().Values("X-Fin")...)
 	res["hdr"] = facOtherHeaders(ctx.UpstreamHeaders())
 	res["upstream"] = be != nil
+
+	if err != nil {
+		res["src"] = facErrSource(err)
+	} else {
+		res["src"] = facErrSource(ctx.PipelineError())
+	}
 
 	return res
 }
@@ -558,12 +581,14 @@ func facLoad(rf rule.Factory, r map[string]any, loadPath string, k int) (map[str
 	}
 
 	return map[string]any{"load": "accepted", "probes": []any{
-		facProbe(repo, "GET", "/r/a", false, false),
-		facProbe(repo, "GET", "/r/a", false, true),
-		facProbe(repo, "GET", "/r/a", true, false),
-		facProbe(repo, "GET", "/r/a", true, true),
-		facProbe(repo, "POST", "/r/a", true, false),
-		facProbe(repo, "GET", "/other", true, false),
+		facProbe(repo, "GET", "/r/a", false, false, false),
+		facProbe(repo, "GET", "/r/a", false, true, false),
+		facProbe(repo, "GET", "/r/a", true, false, false),
+		facProbe(repo, "GET", "/r/a", true, true, false),
+		facProbe(repo, "POST", "/r/a", true, false, false),
+		facProbe(repo, "GET", "/other", true, false, false),
+		facProbe(repo, "GET", "/r/a", true, false, true),
+		facProbe(repo, "GET", "/r/a", true, true, true),
 	}}, nil
 }
 
